@@ -52,8 +52,11 @@ func wideSpec() J {
 		"o1": J{"type": "oauth2", "flow": "password", "tokenUrl": "https://a.example.com/t", "scopes": J{"s1": "1", "s2": "2", "s3": "3", "s4": "4", "s5": "5", "s6": "6", "s7": "7", "s8": "8"}},
 	}
 	d["security"] = []any{J{"k1": []any{}, "k2": []any{}, "k3": []any{}, "k4": []any{}, "k5": []any{}}, J{"o1": []any{"s8", "s1", "s5", "s3", "s7", "s2"}}}
-	d["consumes"] = []any{"application/json", "application/vnd.vf+json", "application/xml", "text/plain", "application/x-yaml", "application/octet-stream", "text/csv", "application/vnd.b+json", "application/vnd.a+json"}
-	d["produces"] = []any{"application/json", "application/xml", "text/plain", "application/x-yaml", "text/csv", "application/vnd.z+json", "application/vnd.y+json", "application/vnd.x+json"}
+	// many media types, including every family the generator names through pattern tables
+	d["consumes"] = []any{"application/json", "application/vnd.vf+json", "application/xml", "text/plain", "application/x-yaml", "application/octet-stream", "text/csv", "application/vnd.b+json", "application/vnd.a+json",
+		"application/gzip", "application/x-gzip", "application/zip", "application/x-tar", "application/pdf", "text/html", "text/xml", "text/yaml", "application/x-protobuf", "application/hal+json", "application/vnd.api+json", "application/msgpack", "image/png"}
+	d["produces"] = []any{"application/json", "application/xml", "text/plain", "application/x-yaml", "text/csv", "application/vnd.z+json", "application/vnd.y+json", "application/vnd.x+json",
+		"application/gzip", "application/x-gzip", "application/zip", "application/octet-stream", "application/pdf", "text/html", "text/xml", "application/x-protobuf", "image/png", "image/jpeg", "application/problem+json"}
 	d["schemes"] = []any{"https", "http", "wss", "ws"}
 	for i := 0; i < 24; i++ {
 		hdrs := J{}
@@ -115,9 +118,10 @@ func wideSpecV2() J {
 // worker: concurrent library calls in one process
 
 type genJob struct {
-	Kind   string `json:"kind"` // server client models markdown support
-	Spec   string `json:"spec"`
-	Target string `json:"target"`
+	Kind      string `json:"kind"` // server client models markdown support
+	Spec      string `json:"spec"`
+	Target    string `json:"target"`
+	KeepOrder bool   `json:"keep_order"` // --keep-spec-order: the generator works on a rewritten temp copy of the spec
 }
 
 func hashTree(dir string) (string, int) {
@@ -147,8 +151,9 @@ func genOpts(j genJob) *generator.GenOpts {
 	g.DefaultScheme = "http"
 	g.IncludeModel, g.IncludeValidator, g.IncludeHandler, g.IncludeParameters, g.IncludeResponses = true, true, true, true, true
 	g.IncludeURLBuilder = true
-	g.IncludeMain, g.IncludeSupport = true, true
+	g.IncludeMain, g.IncludeSupport = j.Kind != "client", true // as the client command does: no main for a client
 	g.ValidateSpec = false
+	g.PropertiesSpecOrder = j.KeepOrder
 	if err := g.EnsureDefaults(); err != nil {
 		panic(err)
 	}
@@ -530,6 +535,24 @@ func main() {
 		}
 		k++
 	}
+	// generations with --keep-spec-order on documents that share a base name in different
+	// directories (the option makes the generator work on a temp copy named after the base name)
+	for i, in := range []string{"base", "models", "wide", "h-allof"} {
+		dir := filepath.Join(specDir, fmt.Sprintf("tenant%d", i))
+		core.Must(os.MkdirAll(dir, 0o755))
+		b, _ := os.ReadFile(inputs[in])
+		sp := filepath.Join(dir, "swagger.json")
+		core.Must(os.WriteFile(sp, b, 0o644))
+		for _, kind := range []string{"models", "client"} {
+			if in == "models" && kind == "client" {
+				continue
+			}
+			t := filepath.Join(jroot, fmt.Sprintf("j%02d-%s-keeporder-%s", len(jobs), kind, in))
+			core.Must(os.MkdirAll(t, 0o755))
+			core.Must(os.WriteFile(filepath.Join(t, "go.mod"), []byte("module vfmod/c07j\n\ngo 1.21\n"), 0o644))
+			jobs = append(jobs, genJob{Kind: kind, Spec: sp, Target: t, KeepOrder: true})
+		}
+	}
 	var dpairs [][2]string
 	for _, p := range pairs[:4] {
 		dpairs = append(dpairs, [2]string{inputs[p[0]], inputs[p[1]]})
@@ -537,7 +560,48 @@ func main() {
 	raceSeen := map[string]string{}
 	yieldSites := map[string]int{}
 	interleavings := map[string]bool{}
-	for batch := 0; batch < c.Pick(1, 5); batch++ {
+	// a batch of look-alike tenants: same document shape and size (so that the generations stay
+	// in step), same base name, one distinguishing model each, all with --keep-spec-order
+	var tenantJobs []genJob
+	{
+		b, _ := os.ReadFile(inputs["base"])
+		for i := 0; i < 8; i++ {
+			doc, err := jx.Parse(b)
+			core.Must(err)
+			defs, _ := doc.(J)["definitions"].(J)
+			if defs == nil {
+				defs = J{}
+				doc.(J)["definitions"] = defs
+			}
+			props := J{}
+			for q := 0; q < 6; q++ {
+				props[fmt.Sprintf("%c%dField", 'z'-byte((q*5+i)%26), i)] = J{"type": "string"}
+			}
+			defs[fmt.Sprintf("Tenant%dMarker", i)] = J{"type": "object", "properties": props}
+			dir := filepath.Join(specDir, fmt.Sprintf("lookalike%d", i))
+			core.Must(os.MkdirAll(dir, 0o755))
+			sp := filepath.Join(dir, "swagger.json")
+			core.Must(os.WriteFile(sp, jx.Marshal(doc), 0o644))
+			t := filepath.Join(jroot, fmt.Sprintf("t%02d-models-keeporder-tenant%d", i, i))
+			core.Must(os.MkdirAll(t, 0o755))
+			core.Must(os.WriteFile(filepath.Join(t, "go.mod"), []byte("module vfmod/c07j\n\ngo 1.21\n"), 0o644))
+			tenantJobs = append(tenantJobs, genJob{Kind: "models", Spec: sp, Target: t, KeepOrder: true})
+		}
+	}
+	type batchSpec struct {
+		jobs   []genJob
+		pairs  [][2]string
+		rounds int
+	}
+	var batches []batchSpec
+	for i := 0; i < c.Pick(1, 5); i++ {
+		batches = append(batches, batchSpec{jobs, dpairs, rounds})
+	}
+	for i := 0; i < c.Pick(1, 3); i++ {
+		batches = append(batches, batchSpec{tenantJobs, nil, c.Pick(10, 40)})
+	}
+	for batch, bs := range batches {
+		jobs, dpairs, rounds := bs.jobs, bs.pairs, bs.rounds
 		cfgPath := filepath.Join(c.Scratch, fmt.Sprintf("p2cfg%d.json", batch))
 		outPath := filepath.Join(c.Scratch, fmt.Sprintf("p2out%d.json", batch))
 		trace := filepath.Join(c.Scratch, fmt.Sprintf("trace%d.jsonl", batch))
@@ -638,7 +702,8 @@ func main() {
 	c.Extra["yield_sites_hit"] = yieldSites
 	c.Extra["distinct_goroutine_yield_sequences"] = len(interleavings)
 	c.Extra["race_reports"] = len(raceSeen)
-	c.Extra["concurrent_jobs"] = len(jobs)
+	c.Extra["concurrent_jobs"] = len(jobs) + len(tenantJobs)
+	c.Extra["lookalike_tenant_rounds"] = c.Pick(10, 40)
 	c.Extra["concurrent_rounds_per_batch"] = rounds
 	_ = rng
 	c.Finish("part 1: every command (generate server / client / model / cli / markdown, generate spec, diff txt / json / -b, flatten json / yaml / full, expand, mixin) run K times in fresh processes on inputs built to put >= 8 entries into every map the tools range over, byte-identical outputs (tree hashes at the same absolute path, stdout + exit status) required; part 2: a -race build of this harness calls generator.GenerateServer / Client / Models / Markdown / Support and diff.Compare concurrently (all jobs at once, several rounds and batches) with the verif yield hooks perturbing interleavings; every concurrent tree must equal the sequential tree of the same job, zero race reports; distinct = (command, input) pairs compared + concurrent jobs + distinct per-goroutine yield sequences observed",
